@@ -20,6 +20,7 @@ import (
 	"fmt"
 	"net"
 	"strconv"
+	"strings"
 
 	"github.com/matrix-org/gomatrixserverlib/spec"
 )
@@ -115,9 +116,12 @@ func handleNoWellKnown(ctx context.Context, serverName spec.ServerName) (results
 			// isn't critical to send the request, as Go's HTTP client and most
 			// servers understand FQDNs quite well, but it makes automated
 			// testing easier.
-			target := rec.Target
-			if target[len(target)-1] == '.' {
-				target = target[:len(target)-1]
+			target := strings.TrimSuffix(rec.Target, ".")
+			if target == "" {
+				// RFC 2782: "A Target of "." means that the service is decidedly
+				// not available at this domain." There is no host to connect to
+				// (the destination ":port" would be the local host).
+				continue
 			}
 
 			results = append(results, ResolutionResult{
